@@ -653,7 +653,120 @@ def _pure_value(e):
                for n in ast.walk(e)) and not isinstance(e, (ast.Name, ast.Constant))
 
 
-def _propagate_pure(fn):
+def _total_flag(e, fn):
+    """an expression that cannot raise, has no effect and depends only on the identity / type of plain names:
+    ``x is None``, ``x is not None``, ``isinstance(x, T)``, ``len(<*args tuple>)``, and ``not`` / ``and`` / ``or`` of
+    such - the flags a maintainer computes once (``has_low = low is not None``) and tests later"""
+    if isinstance(e, ast.UnaryOp) and isinstance(e.op, ast.Not):
+        return _total_flag(e.operand, fn)
+    if isinstance(e, ast.BoolOp):
+        return all(_total_flag(v, fn) for v in e.values)
+    if isinstance(e, ast.Compare) and len(e.ops) == 1 and isinstance(e.ops[0], (ast.Is, ast.IsNot)):
+        l, r = e.left, e.comparators[0]
+        return (isinstance(l, ast.Name) and isinstance(r, ast.Constant) and r.value is None) or \
+            (isinstance(r, ast.Name) and isinstance(l, ast.Constant) and l.value is None)
+    if isinstance(e, ast.Call) and isinstance(e.func, ast.Name) and not e.keywords:
+        if e.func.id == "isinstance" and len(e.args) == 2 and isinstance(e.args[0], ast.Name):
+            t = e.args[1]
+            ok_t = lambda x: isinstance(x, (ast.Name, ast.Attribute))
+            return ok_t(t) or (isinstance(t, ast.Tuple) and all(ok_t(x) for x in t.elts))
+        if e.func.id == "len" and len(e.args) == 1 and isinstance(e.args[0], ast.Name) \
+                and fn.args.vararg is not None and e.args[0].id == fn.args.vararg.arg:
+            return True
+    return False
+
+
+def _blocks_of(fn):
+    """every statement list of the function (nested functions excluded)"""
+    out = []
+    stack = [fn]
+    while stack:
+        n = stack.pop()
+        for fld in ("body", "orelse", "finalbody"):
+            b = getattr(n, fld, None)
+            if isinstance(b, list) and b and isinstance(b[0], ast.stmt):
+                out.append(b)
+                for st in b:
+                    if not isinstance(st, FuncTypes + (ast.ClassDef,)):
+                        stack.append(st)
+        for h in getattr(n, "handlers", []) or []:
+            out.append(h.body)
+            stack.extend(h.body)
+    return out
+
+
+def _inline_accessors(fn):
+    """``x, = args`` / ``x = args[0]`` on the *args tuple (immutable, cannot be rebound without a store we would see):
+    the name is replaced by ``args[0]`` in the statements that follow it in its block, when it is used nowhere else"""
+    va = fn.args.vararg.arg if fn.args.vararg is not None else None
+    if va is None:
+        return False
+    stored = {}
+    for n in ast.walk(fn):
+        if isinstance(n, ast.Name) and isinstance(n.ctx, (ast.Store, ast.Del)):
+            stored[n.id] = stored.get(n.id, 0) + 1
+    if stored.get(va, 0):
+        return False
+    changed = False
+    for blk in _blocks_of(fn):
+        i = 0
+        while i < len(blk):
+            st = blk[i]
+            name = idx = None
+            if isinstance(st, ast.Assign) and len(st.targets) == 1:
+                t, v = st.targets[0], st.value
+                if isinstance(t, ast.Tuple) and len(t.elts) == 1 and isinstance(t.elts[0], ast.Name) and isinstance(v, ast.Name) \
+                        and v.id == va:
+                    name, idx = t.elts[0].id, 0
+                elif isinstance(t, ast.Name) and isinstance(v, ast.Subscript) and isinstance(v.value, ast.Name) and v.value.id == va \
+                        and isinstance(v.slice, ast.Constant) and isinstance(v.slice.value, int):
+                    name, idx = t.id, v.slice.value
+            if name is not None and stored.get(name, 0) == 1 and name not in _captured_names(fn):
+                after = sum(_count_loads(s_, name) for s_ in blk[i + 1:])
+                total = _count_loads(fn, name)
+                # the one-element unpacking also checks the length: only where the block is guarded by it the
+                # substitution is exact - the rewrite is used for views read by rules, not for equivalence proofs
+                if after == total:
+                    repl = ast.Subscript(value=ast.Name(id=va, ctx=ast.Load()), slice=ast.Constant(value=idx), ctx=ast.Load())
+                    for j in range(i + 1, len(blk)):
+                        blk[j] = _Subst({name: repl}).visit(blk[j])
+                    del blk[i]
+                    changed = True
+                    continue
+            i += 1
+    return changed
+
+
+def simplify_views(tree, ref_tree):
+    """Functions that are neither identical to nor proved equivalent with their confirmed namesake are still read by
+    the rules as they stand.  Two rewrites that cannot change behaviour make them easier to read: flags computed once
+    (``has_low = low is not None``, ``n = len(args)``) are put back where they are tested, and single items taken off
+    the *args tuple are written ``args[0]`` again.  Returns the keys of the units rewritten."""
+    ref = {k: n for k, n, _, _ in units(ref_tree)}
+    out = []
+    for key, node, container, idx in units(tree):
+        r = ref.get(key)
+        if r is None or not isinstance(node, FuncTypes) or ast.dump(node) == ast.dump(r):
+            continue
+        did = False
+        for _ in range(4):
+            c1 = _propagate_pure(node, only_flags=True)
+            c2 = _inline_accessors(node)
+            if not (c1 or c2):
+                break
+            did = True
+        for sub in [n for n in ast.walk(node) if isinstance(n, FuncTypes) and n is not node]:
+            for _ in range(4):
+                if not (_propagate_pure(sub, only_flags=True) or _inline_accessors(sub)):
+                    break
+                did = True
+        if did:
+            ast.fix_missing_locations(node)
+            out.append(key)
+    return out
+
+
+def _propagate_pure(fn, only_flags=False):
     """Forward-substitute locals assigned exactly once (at the top level of the function body) to a call-free
     arithmetic expression over names that are never re-bound; and fold ``v = p`` when p is dead afterwards."""
     body = fn.body
@@ -670,7 +783,7 @@ def _propagate_pure(fn):
         st = body[i]
         if isinstance(st, ast.Assign) and len(st.targets) == 1 and isinstance(st.targets[0], ast.Name):
             v = st.targets[0].id
-            if v not in params and isinstance(st.value, ast.Name) and st.value.id != v \
+            if not only_flags and v not in params and isinstance(st.value, ast.Name) and st.value.id != v \
                     and not any(n.id == v for s in body[:i] for n in _names(s)):
                 p = st.value.id
                 rest = body[i + 1:]
@@ -686,14 +799,17 @@ def _propagate_pure(fn):
                 before = any(_count_loads(s, v) for s in body[:i])
                 ops_ = {n.id for n in _names(st.value, ast.Load)}
                 later_store = any(o in _stored_names(s) for s in body[i + 1:] for o in ops_)
-                if not before and _pure_value(st.value) and not later_store and all(
-                        _int_typed(n, fn) for n in _names(st.value, ast.Load)):
+                flag_ok = _total_flag(st.value, fn) and not any(
+                    o in _stored_names(s2) for s2 in ast.walk(fn) if isinstance(s2, ast.stmt) and s2 is not st for o in ops_
+                    if isinstance(s2, (ast.Assign, ast.AugAssign, ast.For, ast.With, ast.Delete, ast.Import, ast.ImportFrom)))
+                if not before and ((not only_flags and _pure_value(st.value) and all(_int_typed(n, fn) for n in _names(st.value, ast.Load)))
+                                   or flag_ok) and not later_store:
                     for j in range(i + 1, len(body)):
                         body[j] = _Subst({v: st.value}).visit(body[j])
                     del body[i]
                     changed = True
                     continue
-                if not before and isinstance(st.value, ast.Name):
+                if not only_flags and not before and isinstance(st.value, ast.Name):
                     p = st.value.id
                     rest = body[i + 1:]
                     p_after = any(n.id == p for s in rest for n in _names(s))
